@@ -13,6 +13,8 @@ THRESHOLDS = {
     "reduction_factor_equals_fresh": 0.5,
     "error_presence_equals_fresh": 0.5,
     "exact_errors_equal_fresh": 0.5,
+    "residual_history_equals_fresh": 0.5,  # every recorded residual norm of the solve, bit for bit (read through the guarded hook)
+    "error_history_equals_fresh": 0.5,
 }
 REQUIRED_CHECKS = ["solution_equals_fresh", "iterations_equal_fresh", "reduction_factor_equals_fresh", "exact_errors_equal_fresh"]
 MIN_NONTRIVIAL = {"quick": 15, "thorough": 300}
